@@ -84,9 +84,12 @@ for _n, _i in [("u_max", "n"), ("u_min", "n"), ("u_count", "n"), ("u_first", "n"
     TICK_FLOWS[_n] = F([_i], "agg" if _n != "u_value_counts" else "keyed", props=("C32",))
 # how the harness may perturb the batch of each C32 flow: 'perm' any order, 'dupset' any order and
 # multiplicity >= 1 (NoOrder + AtLeastOnce), 'stutter' in-place repetition (TotalOrder + AtLeastOnce)
+TICK_FLOWS["u_into_singleton"] = F(["kv"], "agg", props=("C32",))
+TICK_FLOWS["u_repeat_with_keys"] = F(["kv", "n"], "unord", props=("C32",))
+HAND_ONLY_C32 = {"u_into_singleton", "u_repeat_with_keys"}
 PERTURB = {"u_max": ["perm", "dupset"], "u_min": ["perm", "dupset"], "u_count": ["perm"],
            "u_first": ["stutter"], "u_last": ["stutter"], "u_is_empty": ["perm"],
-           "u_value_counts": ["perm"], "u_get_max_key": []}
+           "u_value_counts": ["perm"], "u_get_max_key": [], "u_into_singleton": [], "u_repeat_with_keys": []}
 FLOWS.update(TICK_FLOWS)
 
 # structural tokens of the surface syntax that are not operators of the emission table
@@ -94,6 +97,22 @@ STRUCTURAL = {"handoff", "identity", "tee"}
 
 FLOWS["m_value_counts"] = F(["kv"], "keyed", props=("C33",))
 FLOWS["m_keyed_first"] = F(["kv"], "unord", props=("C33",))
+
+# round 2: flows whose Gallina term exists only as the translation of the builder's IR dump
+GENERATED_ONLY = {
+    "f_limit": F(["n"], "ord", props=("C28", "C29")),
+    "f_first": F(["n"], "agg", props=("C28", "C29")),
+    "c_filter_map_unique_enumerate": F(["n"], "ord", props=("C28", "C29")),
+    "c_union_map_unique_count": F(["n", "n"], "agg", props=("C28", "C33")),
+    "c_filter_map_keyed_fold": F(["kv"], "keyed", props=("C28", "C29")),
+    "c_anti_map_filter_enumerate": F(["kv"], "ord", props=("C28", "C29")),
+    "c_map_limit_enumerate": F(["n"], "ord", props=("C28", "C29")),
+    "c_unique_join_map_unique": F(["kv", "kv"], "unord", heavy=True),
+    "c_filter_first": F(["n"], "agg", props=("C28", "C29")),
+    "c_join_fold_map": F(["kv", "kv"], "agg", heavy=True),
+    "c_tee_union": F(["n"], "unord"),
+}
+FLOWS.update(GENERATED_ONLY)
 
 INPUT_NAMES = "abcd"
 
@@ -524,15 +543,15 @@ TRUSTED_TABLE = {
     "stream/mod.rs::make_totally_ordered::ordering": ("noop", "O: IsOrdered implies O = TotalOrder; use_ordering_type panics otherwise"),
     "stream/mod.rs::weaken_retries::retries": ("proved", "weaken_sound (cast to a weaker guarantee)"),
     "stream/mod.rs::make_exactly_once::retries": ("noop", "R: IsExactlyOnce implies R = ExactlyOnce"),
-    "stream/mod.rs::repeat_with_keys::ordering": ("unproved", "keys of a keyed singleton are distinct; per-key groups do not depend on key order"),
+    "stream/mod.rs::repeat_with_keys::ordering": ("proved", "C32_repeat_with_keys under keys_distinct (C32_keyed_singleton_invariant_*)"),
     "keyed_stream/mod.rs::weaken_ordering::ordering": ("proved", "weaken_sound"),
     "keyed_stream/mod.rs::make_totally_ordered::ordering": ("noop", "O: IsOrdered"),
     "keyed_stream/mod.rs::weaken_retries::retries": ("proved", "weaken_sound"),
     "keyed_stream/mod.rs::make_exactly_once::retries": ("noop", "R: IsExactlyOnce"),
     "keyed_stream/mod.rs::value_counts::ordering": ("proved", "value_counts_perm"),
-    "keyed_singleton.rs::into_singleton_inside_tick::ordering": ("unproved", "entries have distinct keys (upstream invariant); insert is commutative on distinct keys"),
-    "keyed_singleton.rs::into_singleton::ordering": ("unproved", "same as into_singleton_inside_tick"),
-    "keyed_singleton.rs::get_max_key::ordering": ("unproved", "distinct keys + total order on keys give a unique maximum; exercised by the u_get_max_key flow"),
+    "keyed_singleton.rs::into_singleton_inside_tick::ordering": ("proved", "C32_into_singleton under keys_distinct (C32_keyed_singleton_invariant_*)"),
+    "keyed_singleton.rs::into_singleton::ordering": ("proved", "C32_into_singleton under keys_distinct"),
+    "keyed_singleton.rs::get_max_key::ordering": ("proved", "C32_get_max_key under keys_distinct"),
     "sliced/mod.rs::sim_sliced_atomic_keyed_stream::ordering": ("test", "inside #[cfg(test)] mod tests"),
 }
 
@@ -563,6 +582,13 @@ def gen_trusted_cases(rng, tier, flows):
     reps = 5 if tier == "thorough" else 2
     for flow in flows:
         kind = FLOWS[flow]["inputs"][0]
+        if len(FLOWS[flow]["inputs"]) > 1:
+            for rep in range(reps * 2):
+                inputs = [gen_input(rng, k, rng.range(0, 4)) for k in FLOWS[flow]["inputs"]]
+                for c in all_partitions(flow, inputs, 2, src="base"):
+                    c["base"] = c["ticks"]
+                    cases.append(c)
+            continue
         for rep in range(reps):
             n = rng.range(0, 5) if rep else rng.range(3, 5)
             base = gen_input(rng, kind, n)
@@ -626,3 +652,437 @@ def bound_check():
             problems.append("modelled bound %s -> %s no longer matches the source (%s)" % (k, v, found.get(k)))
     rows = [{"api": k, "bound": v, "modelled": BOUND_TABLE.get(k) == v} for k, v in sorted(found.items())]
     return rows, problems
+
+
+# ---------------------------------------------------------------------------- IR dump -> Gallina
+# The harness returns, per flow, the serde dump of the HydroRoot list the production builder built
+# ({"k":"ir"}).  `translate_flow` turns it into a Gallina term of Hydro/Model.v / ModelTick.v:
+# structure, sources, locations (top level vs tick) and order casts come from the dump; closures are
+# looked up by their quoted source text in CLOSURES (an unknown closure makes the flow
+# untranslatable, which the checks report).
+
+
+class Untranslatable(Exception):
+    pass
+
+
+_SHARED = {}
+_EXTRA = []   # translated shared subterms at their 2nd+ reference (for the emission table)
+
+
+def _shared(inner):
+    """serialize_dedup_shared writes a shared node as {"$shared": id, "node": ...} the first time
+    and as {"$shared_ref": id} afterwards"""
+    if "$shared" in inner:
+        _SHARED[inner["$shared"]] = inner["node"]
+        return inner["node"]
+    if "$shared_ref" in inner:
+        if inner["$shared_ref"] in _SHARED:
+            return _SHARED[inner["$shared_ref"]]
+        raise Untranslatable("dangling shared-node reference")
+    raise Untranslatable("shared node form " + str(inner)[:60])
+
+
+def _match(s, i):
+    """index just after the bracket group starting at s[i] in '([{'"""
+    pairs = {"(": ")", "[": "]", "{": "}"}
+    stack = [pairs[s[i]]]
+    i += 1
+    while stack:
+        c = s[i]
+        if c in pairs:
+            stack.append(pairs[c])
+        elif c == stack[-1]:
+            stack.pop()
+        i += 1
+    return i
+
+
+def closure_sig(expr):
+    """canonical text of a quoted closure: BODY{cap=SIG,...} (stageleft plumbing removed)"""
+    m = re.search(r"__stageleft_quote_\w+\s*!\s*\(", expr)
+    if not m:
+        return expr.strip()
+    i = m.end()
+    while expr[i] != "[":
+        i += 1
+    j = _match(expr, i)
+    caps_txt = expr[i + 1:j - 1]
+    k = j
+    while expr[k] != "[":
+        k += 1
+    e = _match(expr, k)
+    body = " ".join(expr[k + 1:e - 1].split())
+    caps = []
+    pos = 0
+    for cm in re.finditer(r"(\w+)\s*=\s*", caps_txt):
+        if cm.start() < pos:
+            continue
+        # value extends to the matching top-level comma
+        v0 = cm.end()
+        depth, p = 0, v0
+        while p < len(caps_txt):
+            c = caps_txt[p]
+            if c in "([{":
+                p = _match(caps_txt, p)
+                continue
+            if c == "<":
+                depth += 1
+            elif c == ">" and depth > 0:
+                depth -= 1
+            elif c == "," and depth == 0:
+                break
+            p += 1
+        caps.append((cm.group(1), closure_sig(caps_txt[v0:p])))
+        pos = p
+    return body + ("{" + ",".join("%s=%s" % c for c in caps) + "}" if caps else "")
+
+
+GEN_WRAPPER = ("move | state : & mut Option < Option < _ > > , v | { if state . is_none () { * state = Some (Some (init__free ())) ; } "
+               "match state { Some (Some (state_value)) => match f__free (state_value , v) { Generate :: Yield (out) => Some (Some (out)) , "
+               "Generate :: Return (out) => { * state = Some (None) ; Some (Some (out)) } Generate :: Break => None , "
+               "Generate :: Continue => Some (None) , } , _ => None , } }")
+LIMIT2 = ("move | count , item | { if * count == n__free { Generate :: Break } else { * count += 1 ; if * count == n__free "
+          "{ Generate :: Return (item) } else { Generate :: Yield (item) } } }{n__free=2}")
+
+# closure source text -> Gallina (closures of harness/h_hydro_flows and of hydro_lang's own operators)
+CLOSURES = {
+    # unary: val -> val / bool / list val / option val
+    "| x | x * 2 + 1": "(vn1 (fun x => x * 2 + 1))",
+    "| x | * x % 3 == 0": "(fun v => n_of v mod 3 =? 0)",
+    "| x | vec ! [x ; (x % 3) as usize]": "c_rep3",
+    "| x | if x % 2 == 0 { Some (x / 2) } else { None }":
+        "(fun v => if n_of v mod 2 =? 0 then Some (VN (n_of v / 2)) else None)",
+    "| x | x % 4": "(vn1 (fun x => x mod 4))",
+    "| x | * x != 2": "(fun v => negb (n_of v =? 2))",
+    "| (i , x) | (x , i as u32)": "(fun p => VP (vsnd p) (vfst p))",
+    "| (k , (v , w)) | k + v * w": "(fun p => VN (kf p + n_of (vfst (vsnd p)) * n_of (vsnd (vsnd p))))",
+    "| x | x + 1": "(vn1 (fun x => x + 1))",
+    "| (x , y) | x < y": "(fun p => kf p <? vf p)",
+    "| (_ , v) | * v % 2 == 1": "(fun p => vf p mod 2 =? 1)",
+    "| (k , (v , w)) | (k , v + w)": "(fun p => VP (vfst p) (VN (n_of (vfst (vsnd p)) + n_of (vsnd (vsnd p)))))",
+    "| x | * x % 2 == 1": "(fun v => n_of v mod 2 =? 1)",
+    "| c | (c as u32) * 10": "(vn1 (fun c => c * 10))",
+    "| (k , v) | k * 10 + v": "(fun p => VN (kf p * 10 + vf p))",
+    "| (k , v) | (k % 2 , v)": "(fun p => VP (VN (kf p mod 2)) (vsnd p))",
+    "| v | (() , v)": "(fun v => VP VU v)",
+    "| (() , (v1 , v2)) | (v1 , v2)": "(fun p => VP (vfst (vsnd p)) (vsnd (vsnd p)))",
+    "| x | x + 100": "(vn1 (fun x => x + 100))",
+    "| (x , c) | (x , c as u32)": "(fun p => p)",
+    "| x | x * 2": "(vn1 (fun x => x * 2))",
+    "| x | * x != 0": "(fun v => negb (n_of v =? 0))",
+    "| (i , x) | (i as u32 + 1) * x": "(fun p => VN ((kf p + 1) * vf p))",
+    # binary accumulators
+    "| acc , x | * acc = (* acc * 2 + x) % 1009": "(vn2 (fun a x => (a * 2 + x) mod 1009))",
+    "| acc , v | * acc = (* acc * 2 + v) % 1009": "(vn2 (fun a x => (a * 2 + x) mod 1009))",
+    "| acc , x | * acc = (* acc * 3 + x) % 1009": "(vn2 (fun a x => (a * 3 + x) mod 1009))",
+    "| acc , v | * acc = (* acc * 3 + v) % 1009": "(vn2 (fun a x => (a * 3 + x) mod 1009))",
+    "| acc , x | * acc += x": "c_plus",
+    "| count , _ | * count += 1": "c_count",
+    "| acc , _ | * acc += 1": "c_count",
+    "| curr , new | { if new > * curr { * curr = new ; } }": "c_max",
+    "| curr , new | { if new < * curr { * curr = new ; } }": "c_min",
+    "| acc , v | { if v > * acc { * acc = v ; } }": "c_max",
+    "| curr , new | * curr = new": "c_last",
+    "| _ , _ | { }": "c_first",
+    "move | curr , new | { if new . 0 > curr . 0 { * curr = new ; } }": "c_maxkey",
+    # initial values
+    "| | 0u32": "(VN 0)", "| | 0usize": "(VN 0)", "| | 1u32": "(VN 1)", "| | 0": "(VN 0)", "| | ()": "VU",
+    # generators
+    "| _ , item | Generate :: Return (item)": "g_first",
+    LIMIT2: "g_limit2",
+}
+
+
+def _clos(v):
+    sig = closure_sig(v["expr"] if isinstance(v, dict) else v)
+    if sig not in CLOSURES:
+        raise Untranslatable("closure not in the vocabulary: " + sig[:160])
+    return CLOSURES[sig]
+
+
+def _node(x):
+    (k, v), = x.items()
+    return k, v
+
+
+def _ck(v):
+    ck = v.get("metadata", {}).get("collection_kind", {})
+    if not ck:
+        return "?", {}
+    (k, i), = ck.items()
+    return k, i
+
+
+def _is_tick(v):
+    return "Tick" in v.get("metadata", {}).get("location_id", {})
+
+
+def _order(v):
+    i = _ck(v)[1]
+    return i.get("order", i.get("value_order"))
+
+
+def _iter_vals(expr):
+    m = re.search(r"vec\s*!\s*\[([^\]]*)\]", expr)
+    if not m:
+        raise Untranslatable("source_iter expression " + expr[:80])
+    return [int(re.sub(r"[a-z]\w*$", "", t.strip())) for t in m.group(1).split(",") if t.strip()]
+
+
+def _src_index(v):
+    s = v["source"]
+    if "Embedded" in s:
+        return INPUT_NAMES.index(s["Embedded"])
+    raise Untranslatable("source " + str(s)[:60])
+
+
+def _gen_parts(v, iv):
+    """(init, f) Gallina terms of a FlatMap(| d | d) over Scan = Stream::generator"""
+    if closure_sig(v["f"]["expr"]) != "| d | d":
+        raise Untranslatable("flat_map over scan that is not the generator flatten")
+    sig = closure_sig(iv["acc"]["expr"])
+    if not sig.startswith(GEN_WRAPPER + "{") or closure_sig(iv["init"]["expr"]) != "| | None":
+        raise Untranslatable("scan that is not Stream::generator's wrapper")
+    caps = sig[len(GEN_WRAPPER) + 1:-1]
+    m = re.match(r"^f__free=(.*),init__free=(.*)$", caps)
+    if not m or m.group(1) not in CLOSURES or m.group(2) not in CLOSURES:
+        raise Untranslatable("generator closure not in the vocabulary: " + caps[:160])
+    return CLOSURES[m.group(2)], CLOSURES[m.group(1)]
+
+
+def tr_s(x):
+    """top-level stream node -> snode term"""
+    k, v = _node(x)
+    if k == "Tee":
+        # a shared node: the IR is a DAG, the model duplicates the subterm (same denotation and
+        # same per-tick semantics: tee() copies every item to both consumers)
+        second = "$shared_ref" in v["inner"]
+        t = tr_s(_shared(v["inner"]))
+        if second:
+            _EXTRA.append(t)
+        return t
+    if k == "Source":
+        if "Iter" in v["source"]:
+            return "(SIter %s)" % g_vals(_iter_vals(v["source"]["Iter"]))
+        return "(SSrc %d)" % _src_index(v)
+    if k in ("ObserveNonDet", "AssertIsConsistent"):
+        return tr_s(v["inner"])
+    if k == "Cast":
+        inner = v["inner"]
+        ik, iv = _node(inner)
+        if _order(v) == "NoOrder" and _order(iv) == "TotalOrder" and _ck(v)[0] == _ck(iv)[0]:
+            return "(SWeaken %s)" % tr_s(inner)
+        return tr_s(inner)
+    if k == "Map":
+        return "(SMap %s %s)" % (_clos(v["f"]), tr_s(v["input"]))
+    if k == "Filter":
+        return "(SFilter %s %s)" % (_clos(v["f"]), tr_s(v["input"]))
+    if k == "FilterMap":
+        return "(SFilterMap %s %s)" % (_clos(v["f"]), tr_s(v["input"]))
+    if k == "FlatMap" and _node(v["input"])[0] == "Scan":
+        iv = _node(v["input"])[1]
+        init, f = _gen_parts(v, iv)
+        return "(SGen %s %s %s)" % (init, f, tr_s(iv["input"]))
+    if k == "FlatMap":
+        ordered = not (_order(v) == "NoOrder" and _order(_node(v["input"])[1]) == "TotalOrder")
+        return "(SFlatMap %s %s %s)" % (vlib.g_bool(ordered), _clos(v["f"]), tr_s(v["input"]))
+    if k == "Inspect":
+        return "(SInspect %s)" % tr_s(v["input"])
+    if k == "Enumerate":
+        return "(SEnumerate %s)" % tr_s(v["input"])
+    if k == "Unique":
+        return "(SUnique %s)" % tr_s(v["input"])
+    if k == "Chain":
+        if _ck(_node(v["first"])[1])[1].get("bound") != "Unbounded":
+            raise Untranslatable("top-level chain with a bounded first side")
+        return "(SUnion %s %s)" % (tr_s(v["first"]), tr_s(v["second"]))
+    if k == "Join":
+        return "(SJoin %s %s)" % (tr_s(v["left"]), tr_s(v["right"]))
+    if k == "AntiJoin":
+        nk, nv = _node(v["neg"])
+        if nk != "Source" or "Iter" not in nv["source"]:
+            raise Untranslatable("anti_join whose negative side is not a source_iter")
+        return "(SAntiJoin %s %s)" % (tr_s(v["pos"]), g_vals(_iter_vals(nv["source"]["Iter"])))
+    raise Untranslatable("top-level stream node " + k)
+
+
+def tr_a(x):
+    """top-level singleton / optional / keyed singleton node -> anode term"""
+    k, v = _node(x)
+    if k in ("ObserveNonDet", "AssertIsConsistent", "Cast"):
+        return tr_a(v["inner"])
+    if k == "Fold":
+        return "(AFold %s %s %s)" % (_clos(v["init"]), _clos(v["acc"]), tr_s(v["input"]))
+    if k == "Reduce":
+        return "(AReduce %s %s)" % (_clos(v["f"]), tr_s(v["input"]))
+    if k == "FoldKeyed":
+        return "(AFoldKeyed %s %s %s)" % (_clos(v["init"]), _clos(v["acc"]), tr_s(v["input"]))
+    if k == "ReduceKeyed":
+        return "(AReduceKeyed %s %s)" % (_clos(v["f"]), tr_s(v["input"]))
+    if k == "Map":
+        return "(AMap %s %s)" % (_clos(v["f"]), tr_a(v["input"]))
+    raise Untranslatable("top-level aggregate node " + k)
+
+
+def tr_b(x):
+    """tick-level node -> bnode term"""
+    k, v = _node(x)
+    if k == "Batch":
+        ik, iv = _node(v["inner"])
+        if ik != "Source":
+            raise Untranslatable("batch of a computed top-level collection inside a tick program")
+        return "(BBatch %d)" % _src_index(iv)
+    if k in ("ObserveNonDet", "AssertIsConsistent"):
+        return tr_b(v["inner"])
+    if k == "Cast":
+        inner = v["inner"]
+        ik, iv = _node(inner)
+        if _order(v) == "NoOrder" and _order(iv) == "TotalOrder" and _ck(v)[0] == _ck(iv)[0]:
+            return "(BWeaken %s)" % tr_b(inner)
+        return tr_b(inner)
+    if k == "Map":
+        return "(BMap %s %s)" % (_clos(v["f"]), tr_b(v["input"]))
+    if k == "Filter":
+        return "(BFilter %s %s)" % (_clos(v["f"]), tr_b(v["input"]))
+    if k == "FlatMap":
+        ik, iv = _node(v["input"])
+        if ik == "Scan":
+            init, f = _gen_parts(v, iv)
+            return "(BGen %s %s %s)" % (init, f, tr_b(iv["input"]))
+        return "(BFlatMap %s %s)" % (_clos(v["f"]), tr_b(v["input"]))
+    if k == "Chain":
+        return "(BChain %s %s)" % (tr_b(v["first"]), tr_b(v["second"]))
+    if k == "Sort":
+        return "(BSort %s)" % tr_b(v["input"])
+    if k == "Enumerate":
+        return "(BEnumerate %s)" % tr_b(v["input"])
+    if k == "Unique":
+        return "(BUnique %s)" % tr_b(v["input"])
+    if k == "JoinHalf":
+        return "(BJoin %s %s)" % (tr_b(v["left"]), tr_b(v["right"]))
+    if k == "AntiJoin":
+        return "(BAntiJoin %s %s)" % (tr_b(v["pos"]), tr_b(v["neg"]))
+    if k == "CrossSingleton":
+        return "(BCrossSingleton %s %s)" % (tr_b(v["left"]), tr_b(v["right"]))
+    if k == "Fold":
+        return "(BFold %s %s %s)" % (_clos(v["init"]), _clos(v["acc"]), tr_b(v["input"]))
+    if k == "Reduce":
+        return "(BReduce %s %s)" % (_clos(v["f"]), tr_b(v["input"]))
+    if k == "FoldKeyed":
+        return "(BFoldKeyed %s %s %s)" % (_clos(v["init"]), _clos(v["acc"]), tr_b(v["input"]))
+    if k == "ReduceKeyed":
+        return "(BReduceKeyed %s %s)" % (_clos(v["f"]), tr_b(v["input"]))
+    if k == "DeferTick":
+        return "(BDefer %s)" % tr_b(v["input"])
+    raise Untranslatable("tick node " + k)
+
+
+def translate_flow(ir):
+    """IR dump (list of roots) -> (kind, term, expected_total_order|None); kind in FS / FA / B"""
+    _SHARED.clear()
+    del _EXTRA[:]
+    if len(ir) != 1:
+        raise Untranslatable("%d roots (cycles / several outputs)" % len(ir))
+    rk, rv = _node(ir[0])
+    if rk != "EmbeddedOutput":
+        raise Untranslatable("root " + rk)
+    x = rv["input"]
+    # observation plumbing: assume_ordering at the very top
+    k, v = _node(x)
+    while k == "ObserveNonDet" and not v.get("trusted"):
+        x = v["inner"]
+        k, v = _node(x)
+    if k != "YieldConcat":
+        return "FS", "(FS %s)" % tr_s(x), _order(v) == "TotalOrder"
+    y = v["inner"]
+    expected = _order(_node(y)[1]) == "TotalOrder" if _ck(_node(y)[1])[0] == "Stream" else None
+    # snapshot of a top-level singleton / optional / keyed singleton: Cast* (Batch top-level-node)
+    z = y
+    zk, zv = _node(z)
+    while zk == "Cast":
+        z = zv["inner"]
+        zk, zv = _node(z)
+    if zk == "Batch" and _node(zv["inner"])[0] != "Source" and not _is_tick(_node(zv["inner"])[1]):
+        return "FA", "(FA %s)" % tr_a(zv["inner"]), None
+    return "B", tr_b(y), expected
+
+
+def gen_name(flow):
+    return "g_" + flow
+
+
+def translated_defs(ctx, binary, flows):
+    """Gallina definitions `g_<flow>` translated from the builder's IR dump, and a report"""
+    res = vlib.run_harness(ctx, binary, [{"k": "ir", "flow": f} for f in flows], name="ir")
+    defs, report = [], {}
+    for f, r in zip(flows, res):
+        try:
+            if not isinstance(r, dict) or "ir" not in r:
+                raise Untranslatable("no IR dump from the harness")
+            kind, term, expected = translate_flow(r["ir"])
+            defs.append("Definition %s := %s." % (gen_name(f), term))
+            report[f] = {"kind": kind, "expected_total_order": expected, "term": term, "shared_extra": list(_EXTRA)}
+        except Untranslatable as e:
+            report[f] = {"kind": None, "why": str(e)}
+    return "\n".join(defs), report
+
+
+HAND_ONLY = {"t_cycle": "tick cycle (two roots)", "u_is_empty": "is_none pipeline",
+             "u_into_singleton": "HashMap-valued singleton (per-batch function)",
+             "u_repeat_with_keys": "cross_product_nested_loop (per-batch function)",
+             "m_keyed_first": "fold_early_stop (keyed generator)"}
+
+
+class Translated:
+    """per-run translation of the corpus flows from the builder's IR dump"""
+
+    def __init__(self, ctx, binary, flows):
+        self.defs, self.report = translated_defs(ctx, binary, flows)
+        self.failed = [f for f, r in self.report.items() if r["kind"] is None and f not in HAND_ONLY]
+
+    def ok(self, flow):
+        return self.report.get(flow, {}).get("kind") is not None
+
+    def name(self, flow):
+        return gen_name(flow) if self.ok(flow) else flow
+
+    def same(self, flow, case):
+        """cross-check term of the generated term against the hand-written one on this case"""
+        if not self.ok(flow):
+            return 1 if flow in self.failed else None
+        if flow in GENERATED_ONLY:
+            r = self.report[flow]
+            e = r["expected_total_order"]
+            if r["kind"] == "FS" and e is not None:
+                return "(same_flow %s %s [] (Some %s))" % (gen_name(flow), gen_name(flow), vlib.g_bool(e))
+            return None
+        r = self.report[flow]
+        e = r["expected_total_order"]
+        exp = "None" if e is None else "(Some %s)" % vlib.g_bool(e)
+        fn = "same_bnode" if r["kind"] == "B" else "same_flow"
+        return "(%s %s %s %s %s)" % (fn, gen_name(flow), flow, g_ticks(case), exp)
+
+    def wrap(self, flow, case, term):
+        s = self.same(flow, case)
+        if s is None or isinstance(term, int):
+            return term
+        if s == 1:
+            return "(N.lor %s 1)" % term
+        return "(N.lor %s %s)" % (term, s)
+
+    def summary(self):
+        return {"translated_from_ir_dump": sorted(f for f in self.report if self.ok(f)),
+                "generated_only_no_hand_term": sorted(f for f in self.report if self.ok(f) and f in GENERATED_ONLY),
+                "hand_specified_only": {f: HAND_ONLY.get(f, self.report[f].get("why")) for f in self.report if not self.ok(f)},
+                "translation_failures": {f: self.report[f].get("why") for f in self.failed}}
+
+
+def emit_term_named(flow, name, res, fn="chk_emit", extras=()):
+    """emission-table term for `flow`, evaluated on the Gallina term called `name`"""
+    t = emit_term(flow, res, fn=fn)
+    if isinstance(t, int):
+        return t
+    if extras:
+        return t.replace("(%s %s " % (fn, flow), "(chk_emit_dag %s [%s] " % (name, "; ".join(extras)), 1)
+    return t.replace("(%s %s " % (fn, flow), "(%s %s " % (fn, name), 1)
